@@ -18,7 +18,7 @@ DESCRIPTION = {
     "assumptions": ["the transport stays up for the whole history (transport loss is C06/C13)"],
 }
 
-BEHAVIOURS = ["value", "value", "callresult", "none", "unserializable", "oversized", "raise-app", "raise-defined", "raise-undefined", "raise-unserializable-args", "pending", "pending", "progress", "shielded", "chained"]
+BEHAVIOURS = ["value", "value", "callresult", "none", "unserializable", "oversized", "raise-app", "raise-defined", "raise-undefined", "raise-unserializable-args", "pending", "pending", "progress", "shielded", "chained", "unserializable-big"]
 
 
 def plan(tier, seed):
@@ -202,6 +202,9 @@ class World:
                 return None
             if beh == "unserializable":
                 return {"obj": object()}
+            if beh == "unserializable-big":
+                # neither serializable nor small: whatever the session says about it has to fit the transport as well
+                return {"obj": object(), "pad": world.big()}
             if beh == "oversized":
                 return world.big()
             if beh == "raise-app":
@@ -385,6 +388,9 @@ class World:
                     "progress": (["final"], {}), "ok": (["resolved"], {})}[beh]
             if norm(args) != want[0] and not (beh == "none" and norm(args) in ([], [None])) or norm(kw or {}) != want[1]:
                 raise Violation("C10|yield-content-differs|" + beh, "YIELD args=%r kwargs=%r expected %r %r" % (brief(args), brief(kw), want[0], want[1]), self.c)
+        elif beh == "unserializable-big":
+            if is_yield or uri not in ("wamp.error.invalid_payload", "wamp.error.payload_size_exceeded"):
+                raise Violation("C10|unserializable-result-not-answered-with-an-error|" + beh, repr([x if not isinstance(x, (str, list, dict)) else str(x)[:40] for x in m[:6]]), self.c)
         elif beh in ("unserializable", "raise-unserializable-args"):
             if is_yield or uri != "wamp.error.invalid_payload":
                 raise Violation("C10|unserializable-result-not-answered-with-invalid_payload|" + beh, repr(m[:6]), self.c)
@@ -525,7 +531,7 @@ def histories(col, seed, n, kind):
     def body(c):
         w = check_history(c)
         behs = set(i["beh"] for i in w.invs)
-        nt = len(w.invs) >= 2 or bool(behs & {"unserializable", "oversized", "raise-unserializable-args"}) or any(s[0] == "interrupt" and s[2] == "pending" for s in c["steps"]) or any(s[0] == "invoke" and len(s) > 5 for s in c["steps"])
+        nt = len(w.invs) >= 2 or bool(behs & {"unserializable", "oversized", "raise-unserializable-args", "unserializable-big"}) or any(s[0] == "interrupt" and s[2] == "pending" for s in c["steps"]) or any(s[0] == "invoke" and len(s) > 5 for s in c["steps"])
         col.case(nt, dig=c, cls=["tx:%s" % kind, "ser:" + c["ser"]] + ["beh:" + b for b in sorted(behs)] + (["invocation+interrupt-in-one-read"] if any(s[0] == "invoke" and len(s) > 5 for s in c["steps"]) else []) + (["unregister-while-pending"] if w.unregistered and any(
                      i["beh"] in ("pending", "shielded", "chained") for i in w.invs if i["proc"] in w.unregistered) else []) + (["limit:%s" % (w.limit,)] if w.limit else []) +
                  (["concurrent>=2"] if sum(1 for i in w.invs if i["beh"] in ("pending", "chained")) >= 2 else []),
